@@ -1,3 +1,4 @@
--- This module serves as the root of the `TypedpyModel` library.
--- Import modules here that should be built as part of the library.
-import TypedpyModel.Basic
+-- Root of the typedpy model library: importing every property file makes `lake build TypedpyModel`
+-- re-check all theorems.
+import TypedpyModel.Props.C02
+import TypedpyModel.Drive.Construct
